@@ -603,7 +603,7 @@ def gen_ei(rng, tier, mods=None, depths=(1, 1, 2, 3, 3, 4, 5, 6, 8, 12), probe=F
     else:
         args = repr(msg)
     how = rng.choice(["builtin", "builtin", "user", "nestedcls", "local", "fakemod", "customstr", "div", "index", "key",
-                      "oserror", "assert", "othermod", "bare", "builtin", "user", "nameerr", "attrerr", "importerr", "badstr", "baseexc"])
+                      "oserror", "assert", "othermod", "bare", "builtin", "user", "nameerr", "attrerr", "importerr", "badstr", "baseexc", "atimport"])
     expect = None
     if probe:
         how = "probe"
@@ -653,6 +653,16 @@ def gen_ei(rng, tier, mods=None, depths=(1, 1, 2, 3, 3, 4, 5, 6, 8, 12), probe=F
     elif how == "assert":
         body = "assert n, (%s)" % (args or "'m'") if rng.random() < 0.7 else "assert n"
         expect = "AssertionError"
+    elif how == "atimport" and "mz" not in src:
+        # the exception is raised while a further module is being imported (module-level code, <module> entries,
+        # the import machinery's own frames removed by the interpreter)
+        src["mz"] = ["import sys", "def boom(n):\n    raise RuntimeError(%s)" % (args or "'at import'"), "X = [boom(i) for i in [1]]"]
+        mods = list(mods) + ["mz"]
+        body = "import mz"
+        expect = "RuntimeError"
+    elif how == "atimport":
+        body = "raise ValueError('mz taken')"
+        expect = "ValueError"
     elif how == "baseexc":
         t = rng.choice(["KeyboardInterrupt", "SystemExit", "GeneratorExit", "BaseException"])
         body = "raise %s" % t if args is None else "raise %s(%s)" % (t, args)
